@@ -54,6 +54,24 @@ def gen_cases(rng, tier):
             c['new'] = rand_bits(rng, rng.choice([0, 1, pl, pl + 3, 8]))
             if c['count'] == -1: c['count'] = 4   # a negative count is not specified for replace
         yield c
+    # overlapping occurrences: self-overlapping patterns in low-entropy data; whole-byte patterns with bytealigned (the byte fast path),
+    # and replace / split / findall with counts (non-overlapping selection from overlapping matches)
+    for i in range(160 if tier == 'quick' else 3000):
+        unit = rng.choice(['0', '1', '01', '011', '0000000011111111', '00000000', '10101010', '1111000011110000', '000000001'])
+        n = rng.choice([16, 24, 32, 40, 48, 64, 72, 100])
+        data = (unit * (n // len(unit) + 1))[:n]
+        if rng.random() < 0.3:
+            j = rng.randrange(n); data = data[:j] + ('1' if data[j] == '0' else '0') + data[j + 1:]
+        if i % 2 == 0:
+            pl = rng.choice([16, 16, 24, 32, 8]); j = 8 * rng.randrange(0, max(1, (n - pl) // 8 + 1)); pat = data[j:j + pl]; ba = True
+        else:
+            pl = rng.choice([2, 3, 4, 5, 8, 9]); j = rng.randrange(0, max(1, n - pl)); pat = data[j:j + pl]; ba = rng.choice([None, False, True])
+        if not pat: continue
+        a, b = rand_window(rng, n) if rng.random() < 0.5 else (None, None)
+        op = rng.choice(['findall', 'findall', 'find', 'rfind', 'split', 'replace', 'replace'])
+        c = {'op': op, 'cls': rng.choice(MUTABLE if op == 'replace' else CLASSES), 'data': data, 'pat': pat, 'start': a, 'end': b, 'ba': ba, 'opt_ba': False,
+             'ptype': 'bits', 'count': rng.choice([None, 1, 2, 2, 3, 4]), 'new': rand_bits(rng, rng.choice([0, 1, pl, 3]))}
+        yield c
     if tier == 'thorough':
         for n in range(0, 9):
             for v in range(1 << n):
